@@ -573,8 +573,8 @@ theorem lexAll_tiles {cfg : Cfg} (hs : cfg.up.Sane) (hf : cfg.fullLexer = true) 
 
 /-! ### the soft-keyword pass rewrites a keyword token to a name token with the same text, nothing else -/
 
-theorem softTok_cases (sol : Bool) (t : Spanned) (ts : List Spanned) :
-    softTok sol t ts = t.tok ∨ ∃ k, t.tok = .kw k ∧ softTok sol t ts = .name (kwText k) := by
+theorem softTok_cases (sol sos : Bool) (t : Spanned) (ts : List Spanned) :
+    softTok sol sos t ts = t.tok ∨ ∃ k, t.tok = .kw k ∧ softTok sol sos t ts = .name (kwText k) := by
   unfold softTok
   split
   · split
@@ -594,40 +594,40 @@ theorem softTok_cases (sol : Bool) (t : Spanned) (ts : List Spanned) :
       · right; exact ⟨.Type_, by assumption, rfl⟩
   · left; rfl
 
-theorem softKwGo_mem_tok {ts : List Spanned} {sol : Bool} {t : Spanned} (h : t ∈ softKwGo ts sol) :
+theorem softKwGo_mem_tok {ts : List Spanned} {st : SoftSt} {t : Spanned} (h : t ∈ softKwGo ts st) :
     ∃ t' ∈ ts, t'.cs = t.cs ∧ t'.ce = t.ce ∧ t'.bs = t.bs ∧ t'.be = t.be ∧
       (t.tok = t'.tok ∨ ∃ k, t'.tok = .kw k ∧ t.tok = .name (kwText k)) := by
-  induction ts generalizing sol with
+  induction ts generalizing st with
   | nil => simp [softKwGo] at h
   | cons a ts ih =>
     simp only [softKwGo, List.mem_cons] at h
     rcases h with rfl | h
-    · exact ⟨a, by simp, rfl, rfl, rfl, rfl, softTok_cases _ _ _⟩
+    · exact ⟨a, by simp, rfl, rfl, rfl, rfl, softTok_cases _ _ _ _⟩
     · obtain ⟨t', ht', e⟩ := ih h
       exact ⟨t', by simp [ht'], e⟩
 
-theorem softKwGo_newlines (ts : List Spanned) (sol : Bool) (d : Nat) :
-    NewlinesAtDepth0 d ((softKwGo ts sol).map (·.tok)) ↔ NewlinesAtDepth0 d (ts.map (·.tok)) := by
-  induction ts generalizing sol d with
+theorem softKwGo_newlines (ts : List Spanned) (st : SoftSt) (d : Nat) :
+    NewlinesAtDepth0 d ((softKwGo ts st).map (·.tok)) ↔ NewlinesAtDepth0 d (ts.map (·.tok)) := by
+  induction ts generalizing st d with
   | nil => simp [softKwGo]
   | cons a ts ih =>
     simp only [softKwGo, List.map_cons, NewlinesAtDepth0]
-    rcases softTok_cases sol a ts with h | ⟨k, hk, h⟩
+    rcases softTok_cases st.sol st.sos a ts with h | ⟨k, hk, h⟩
     · rw [h, ih]
     · rw [h, hk, ih]; simp [depthStep]
 
-theorem softKwGo_balance (ts : List Spanned) (sol : Bool) (b : Nat) :
-    indentBalance b ((softKwGo ts sol).map (·.tok)) = indentBalance b (ts.map (·.tok)) := by
-  induction ts generalizing sol b with
+theorem softKwGo_balance (ts : List Spanned) (st : SoftSt) (b : Nat) :
+    indentBalance b ((softKwGo ts st).map (·.tok)) = indentBalance b (ts.map (·.tok)) := by
+  induction ts generalizing st b with
   | nil => simp [softKwGo]
   | cons a ts ih =>
     simp only [softKwGo, List.map_cons]
-    rcases softTok_cases sol a ts with h | ⟨k, hk, h⟩
+    rcases softTok_cases st.sol st.sos a ts with h | ⟨k, hk, h⟩
     · rw [h]; cases a.tok <;> simp [indentBalance, ih]
     · rw [h, hk]; simp [indentBalance, ih]
 
-theorem softKwGo_cspans (ts : List Spanned) (sol : Bool) : (softKwGo ts sol).map cspan = ts.map cspan := by
-  induction ts generalizing sol with
+theorem softKwGo_cspans (ts : List Spanned) (st : SoftSt) : (softKwGo ts st).map cspan = ts.map cspan := by
+  induction ts generalizing st with
   | nil => simp [softKwGo]
   | cons t ts ih => simp [softKwGo, ih, cspan]
 
